@@ -8,6 +8,9 @@
 //!                                                  | remote;<enc url>;<enc cache text>   (offline cache)
 //!   fetch <policy> <now|real> <cache> <expected|!> <server>       (cache: ! absent, = keep, mtime:enc text,
 //!         G<mtime>:<bytes, comma separated> a file whose bytes are not UTF-8, D<mtime> a directory at the entry path)
+//!   useq <enc url>;<enc url>.. <url idx;policy;now;expected|!;server>..   (a history over SEVERAL URLs sharing one,
+//!         initially empty, cache directory under the simulated clock; answer per step: outcome, requests, which of the
+//!         URLs the client was asked for (index, ? for a string that is none of them); then the entries found by scanning)
 //!   hash <enc text>
 //!   prime <enc project root> <enc url> <enc body>      (fills the remote cache of a sandbox through the real fetch path)
 //! WHERE a cache entry lives is never computed here: an entry is planted by running the real fetch path
@@ -557,6 +560,105 @@ fn fetch_case(f: &[&str], scratch: &Path) -> (String, String, u64) {
     (out, state, client.count.get())
 }
 
+/// Scripted client that also records which URL it was asked for.
+struct Recording {
+    body: Option<String>,
+    fail: u32,
+    asked: std::cell::RefCell<Vec<String>>,
+}
+
+impl HttpClient for Recording {
+    fn get(&self, url: &str) -> sloc_guard::Result<String> {
+        self.asked.borrow_mut().push(url.to_string());
+        match &self.body {
+            Some(b) => Ok(b.clone()),
+            None => Err(SlocGuardError::Config(if self.fail == 2 {
+                format!("Request timeout fetching remote config: {url}")
+            } else {
+                format!("Failed to connect to remote config URL: {url}")
+            })),
+        }
+    }
+}
+
+fn fmt_fetch_result(r: &Result<String, SlocGuardError>) -> String {
+    match r {
+        Ok(s) => format!("CONTENT {}", enc(s)),
+        Err(SlocGuardError::RemoteConfigHashMismatch { actual, .. }) => {
+            format!("MISMATCH {}", enc(actual))
+        }
+        Err(SlocGuardError::Config(m)) if m.starts_with("Remote config cache miss in offline mode") => {
+            "MISS".to_string()
+        }
+        Err(SlocGuardError::Config(m)) if m.starts_with("Request timeout") => "FAIL 2".to_string(),
+        Err(SlocGuardError::Config(m)) if m.starts_with("Failed to connect") => "FAIL 1".to_string(),
+        Err(e) => format!("OTHER {}", enc(&e.to_string())),
+    }
+}
+
+/// A history of fetches over several URLs sharing one cache directory (initially empty), simulated clock.
+fn useq_case(f: &[&str], scratch: &Path) -> String {
+    let urls: Vec<String> = f[1].split(';').map(dec).collect();
+    let root = scratch.join("useq-root");
+    let _ = std::fs::remove_dir_all(&root);
+    std::fs::create_dir_all(&root).expect("mkdir");
+    let mut outs = Vec::new();
+    for step in &f[2..] {
+        let p: Vec<&str> = step.split(';').collect();
+        let url = &urls[p[0].parse::<usize>().expect("url idx")];
+        let policy = match p[1] {
+            "normal" => FetchPolicy::Normal,
+            "offline" => FetchPolicy::Offline,
+            "refresh" => FetchPolicy::ForceRefresh,
+            _ => panic!("policy"),
+        };
+        let now: u64 = p[2].parse().expect("now");
+        // SAFETY: the harness is single-threaded
+        unsafe {
+            std::env::set_var("SGV_NOW", now.to_string());
+        }
+        let expected = dec_opt(p[3]);
+        let (kind, arg) = p[4].split_once(':').expect("server");
+        let client = Recording {
+            body: if kind == "B" { Some(dec(arg)) } else { None },
+            fail: if kind == "F" { arg.parse().expect("kind") } else { 0 },
+            asked: std::cell::RefCell::new(Vec::new()),
+        };
+        let before: HashMap<PathBuf, Option<u64>> = scan_entries(&root)
+            .into_iter()
+            .map(|e| {
+                let m = mtime_secs(&e);
+                (e, m)
+            })
+            .collect();
+        let r = fetch_remote_config_with_client(url, &client, Some(&root), expected.as_deref(), policy);
+        // an entry written by this call carries the wall clock: re-stamp it with the simulated time
+        for e in scan_entries(&root) {
+            if before.get(&e) != Some(&mtime_secs(&e)) {
+                set_mtime(&e, now);
+            }
+        }
+        let asked = client.asked.borrow();
+        let which: Vec<String> = asked
+            .iter()
+            .map(|a| urls.iter().position(|u| u == a).map_or_else(|| "?".to_string(), |i| i.to_string()))
+            .collect();
+        outs.push(format!(
+            "{} {} {}",
+            fmt_fetch_result(&r),
+            asked.len(),
+            if which.is_empty() { "!".to_string() } else { which.join("+") }
+        ));
+    }
+    let entries: Vec<String> = scan_entries(&root).iter().map(|e| read_cache_state(e)).collect();
+    let _ = std::fs::remove_dir_all(&root);
+    format!(
+        "{} | {}",
+        outs.join(" ; "),
+        if entries.is_empty() { "!".to_string() } else { entries.join(" & ") }
+    )
+}
+
 fn validate_fmt(v: &Value) -> String {
     match validate_reset_positions(v, "") {
         Ok(()) => "OK".to_string(),
@@ -604,6 +706,7 @@ fn handle(f: &[&str], scratch: &Path) -> String {
             format!("OK {}", enc(&p.to_string_lossy()))
         }
         "resolve" => resolve_case(f, scratch),
+        "useq" => useq_case(f, scratch),
         "fetch" => {
             let (o, st, n) = fetch_case(f, scratch);
             format!("{o} | {st} | {n}")
